@@ -4,7 +4,7 @@ when confirmed, store it under /verif/seeded/<property>-<n>/ with meta.json (inc
 import sys, os, subprocess, json, re, shutil
 out=sys.argv[1]; prop=sys.argv[2]; n=os.path.basename(out.rstrip('/'))
 prefix=sys.argv[3] if len(sys.argv)>3 else ''
-WT='/tmp/mutcheck'; VD='/tmp/mutcheck-verif'
+WT=os.environ.get('WT','/tmp/mutcheck'); VD=os.environ.get('VD','/tmp/mutcheck-verif')
 env=dict(os.environ, GOFLAGS='-mod=mod', GOPROXY='off', GOSUMDB='off', GOTOOLCHAIN='local'); env.pop('GOWORK',None)
 def sh(cmd, **k): return subprocess.run(cmd, shell=True, capture_output=True, text=True, env=env, **k)
 head=sh('git -C /repo rev-parse HEAD').stdout.strip()
